@@ -9,8 +9,8 @@ import (
 	"strconv"
 
 	"github.com/hyperjumptech/grule-rule-engine/ast"
-	verif "github.com/hyperjumptech/grule-rule-engine/zzverif"
 	"github.com/hyperjumptech/grule-rule-engine/zzkb"
+	verif "github.com/hyperjumptech/grule-rule-engine/zzverif"
 )
 
 func VerifC18(t int) {
